@@ -82,6 +82,28 @@ def layouts():
     return out
 
 
+def parent_orders():
+    """inheritance lists with several parents — with and without constructor arguments, classes and abstract types — in
+    every order: the base list of the emitted class is the list as written"""
+    import itertools
+    out = []
+    pre = ("class Pa(def pz: Int)\n    def who(fin self) -> Str => \"a\"\nclass Pb\n    def who(fin self) -> Str => \"b\"\nclass Pc\n    def other(fin self) -> Int => 1\n"
+           "type Pt\n    def area(fin self) -> Int\nclass Pd(def pw: Str)\n    def dd(fin self) -> Str => self.pw\n")
+    spell = {"Pa": "Pa(ca)", "Pb": "Pb", "Pc": "Pc", "Pt": "Pt", "Pd": "Pd(\"w\")"}
+    k = 0
+    for n in (2, 3):
+        for combo in itertools.permutations(["Pa", "Pb", "Pc", "Pt", "Pd"], n):
+            if "Pa" in combo and "Pb" in combo and n == 3:
+                continue
+            k += 1
+            name = "Q%d" % k
+            lines = [pre + "class %s(def ca: Int): %s" % (name, ", ".join(spell[c] for c in combo))]
+            lines.append("    def area(fin self) -> Int => self.ca" if "Pt" in combo else "    def extra(fin self) -> Int => self.ca")
+            exp = {name: ("class", [], list(combo)), name + ".__init__": ("fun", [("self", False, False), ("ca", False, False)], [])}
+            out.append(("\n".join(lines) + "\n", exp))
+    return out
+
+
 def expected_of(prog):
     exp = {}
     for kind, x in prog.items:
@@ -112,6 +134,8 @@ def run(chk):
     cases = [template(rng, k) for k in range(60 if thorough else 12)]
     lay = layouts()
     cases += lay if thorough else rng.sample(lay, 120)
+    po = parent_orders()
+    cases += po if thorough else rng.sample(po, 25)
     for _ in range(200 if thorough else 30):
         p = gen_prog.Gen(rng).program()
         cases.append((p.text, expected_of(p)))
